@@ -688,18 +688,19 @@ def answerAddr (known : List Wire.Rec) (i : MyIntf) (reg : Registry) (qname : BL
       (fun r ip => r.addAnswer known { name := reg.resolveName svc.host, ty := addrType ip, flush := true,
                                        ttl := TTL_HOST, rdata := addrRData ip }) r
 
-/-- `add_answer_of_service` -/
-def addAnswerOfService (known : List Wire.Rec) (qname : BList) (qtype : Nat) (svc : Service) (addrs : List Ip)
+/-- `add_answer_of_service_with_host`: `host` is the CURRENT host name of the service (repair of
+    D37: the answers named `svc.host`, the host name as registered, also after a rename) -/
+def addAnswerOfService (known : List Wire.Rec) (qname : BList) (qtype : Nat) (svc : Service) (host : BList) (addrs : List Ip)
     (r : Resp) : Resp :=
   let r1 := if qtype == TYPE_SRV || qtype == TYPE_ANY then
-      r.addAnswer known { name := qname, ty := TYPE_SRV, flush := true, ttl := TTL_HOST, rdata := .srv 0 0 svc.port svc.host }
+      r.addAnswer known { name := qname, ty := TYPE_SRV, flush := true, ttl := TTL_HOST, rdata := .srv 0 0 svc.port host }
     else r
   let r2 := if qtype == TYPE_TXT || qtype == TYPE_ANY then
       r1.addAnswer known { name := qname, ty := TYPE_TXT, flush := true, ttl := TTL_OTHER, rdata := .txt svc.txt }
     else r1
   if qtype == TYPE_SRV then
     { r2 with additionals := r2.additionals ++ addrs.map fun ip =>
-        { name := svc.host, ty := addrType ip, flush := true, ttl := TTL_HOST, rdata := addrRData ip } }
+        { name := host, ty := addrType ip, flush := true, ttl := TTL_HOST, rdata := addrRData ip } }
   else r2
 
 /-- the instance-name part of a non-PTR question: the service whose CURRENT name (the name as
@@ -712,7 +713,7 @@ def answerInstance (known : List Wire.Rec) (services : List (BList × Service)) 
   | some (_, svc) =>
     if !svc.announcedOn i.index then r
     else if addrsOn svc i v4 = [] then r
-    else addAnswerOfService known qname qtype svc (addrsOn svc i v4) r
+    else addAnswerOfService known qname qtype svc (reg.resolveName svc.host) (addrsOn svc i v4) r
 
 /-- the answer part of the loop over the questions in `handle_query` -/
 def answerQuestion (known : List Wire.Rec) (services : List (BList × Service)) (i : MyIntf) (reg : Registry)
